@@ -127,6 +127,14 @@ StageDiffs(nx, ln, sg) ==
    \cup V(\A p \in A : nx.dtn[p] = At(ln.dtn, p), "conf.dtnew")
    \cup V(\A p \in Slots : nx.riar[p] = At(ln.riar, p), "conf.riar")
    \cup V(\A p \in A : \A lv \in Levels : nx.tag[p][lv] = At(At(ln.tag, p), lv), "conf.tag")
+   \* every forward transfer is consumed on the level it was sent on: the number of receives observed for (step, level) in this
+   \* stage is the number the model performs (zv counts the modifications of u[0]: one per receive, one per restriction into
+   \* the level -- IT_DOWN restricts once into every level below the finest)
+   \cup V(sg \in {"IT_CHECK", "IT_FINE", "IT_DOWN", "IT_COARSE", "IT_UP"} =>
+            \A p \in A : \A lv \in Levels :
+                Cardinality({i \in 1 .. Len(ln.evs) : ln.evs[i][1] = "recv" /\ ln.evs[i][2] = p /\ ln.evs[i][3] = lv})
+                  = nx.zv[p][lv] - st.zv[p][lv] - (IF sg = "IT_DOWN" /\ lv >= 1 /\ st.stage[p] # "DONE" THEN 1 ELSE 0),
+        "conf.recv_levels")
    \* values: whenever the model says u[0] of p is the current end value of p-1, the hashes must agree
    \cup V(\A p \in A : \A lv \in Levels :
             (p > 0 /\ nx.src[p][lv] = <<p - 1, nx.uev[p - 1][lv]>> /\ nx.uev[p - 1][lv] # NoEnd)
@@ -138,6 +146,8 @@ StageDiffs(nx, ln, sg) ==
    \cup V(sg = "IT_CHECK" => \A i \in 1 .. Len(ln.orc) : ln.orc[i].fresh, "val.residual_fresh")
    \* ... and equals the independently recomputed defect norm in the configured residual type (unscripted runs)
    \cup V(sg = "IT_CHECK" => \A i \in 1 .. Len(ln.orc) : ln.orc[i].resval_ok, "val.residual_value")
+   \* the residual reported after EVERY fine sweep (not only the last one of an iteration) is the defect of the current values
+   \cup V(ln.sres_ok, "val.residual_after_sweep")
    \* CheckConvergence outcome equals the stopping rule applied to its inputs
    \cup V(sg = "IT_CHECK" => \A i \in 1 .. Len(ln.orc) :
             LET p == ln.running[i] o == ln.orc[i] IN
